@@ -70,6 +70,15 @@ def build_pps(p):
         # the state LIST is given in another order than the time steps (state i keeps time step t0 + i)
         states = [states[j] for j in p["order"]]
     traj = Trajectory(states[0].time_step, states)
+    if p.get("retraj"):
+        # the solution is constructed with a trajectory of the OTHER kind its vehicle model admits (state trajectory <-> input vector, other
+        # length, other start) and the real trajectory is assigned through the public setter afterwards
+        others = [k for k in kinds_for_model(p["model"]) if k != p["kind"]]
+        if others:
+            ph = [build_state(others[0], 3 + i, default_vec(others[0], 0.25 * i)) for i in range(2)]
+            sol = PlanningProblemSolution(p["id"], VehicleModel[p["model"]], VehicleType(p["vtype"]), CostFunction[p["cost"]], Trajectory(3, ph))
+            sol.trajectory = traj
+            return sol
     return PlanningProblemSolution(p["id"], VehicleModel[p["model"]], VehicleType(p["vtype"]), CostFunction[p["cost"]], traj)
 
 
